@@ -102,12 +102,13 @@ type Ctx struct {
 	driver       string
 	knownSigs    map[string]string // signature -> finding id (open findings of this property)
 	maxViolation int
+	perSig       map[string]int
 }
 
 func NewCtx(prop string, seed uint64, tier, driver, knownPath string) *Ctx {
 	c := &Ctx{Prop: prop, Seed: seed, Tier: tier, Rng: NewRng(seed), Start: time.Now(),
 		distinct: map[string]struct{}{}, Dist: map[string]int{}, Known: map[string]int{},
-		driver: driver, knownSigs: map[string]string{}, maxViolation: 25}
+		driver: driver, knownSigs: map[string]string{}, maxViolation: 60}
 	if f, err := os.Open(knownPath); err == nil {
 		defer f.Close()
 		sc := bufio.NewScanner(f)
@@ -166,8 +167,12 @@ func (c *Ctx) Fail(kind, check, signature, what string, replay any) {
 		c.Known[id+" "+signature]++
 		return
 	}
-	c.Count("violation:" + check)
-	if len(c.Violations) < c.maxViolation {
+	c.Count("violation:" + check + ":" + signature)
+	if c.perSig == nil {
+		c.perSig = map[string]int{}
+	}
+	c.perSig[check+"|"+signature]++
+	if c.perSig[check+"|"+signature] <= 3 && len(c.Violations) < c.maxViolation {
 		c.Violations = append(c.Violations, Violation{kind, check, signature, what, replay})
 	}
 }
